@@ -268,7 +268,7 @@ VER_FUNCS = ["packet::Signature::{verify,verify_key_third_party,verify_third_par
              "verify_primary_key_binding,match_identity,check_signature_key_version_alignment}", "packet::SignatureConfig::{hash_signature_data,"
              "hash_data_to_sign,trailer}", "packet::signature::types::serialize_for_hashing"]
 PROPS["C02"] = {
-    "inject": [("src/packet/signature/types.rs", "c11_sig")],
+    "inject": [("src/packet/signature/types.rs", "c11_sig"), ("src/packet/one_pass_signature.rs", "c15_ops")],
     "mem_gb": 14,
     "level_text": "Bounded model checking of every verify entry point of the signature packet with ideal hash/signature primitives: "
                   "for two fully symbolic situations (signed A, presented B) the solver shows verify(B)=Ok implies A and B agree in "
@@ -281,6 +281,9 @@ PROPS["C02"] = {
     "harnesses": [
         H("c02_data_v4_2", "c11_sig", "quick", 900, "v4 data signature: signed A vs presented B (doc, pk octet, time, subpacket type/critical/body, hash prefix)", VER_FUNCS, "doc 2 bytes"),
         H("c02_data_v6_2", "c11_sig", "quick", 900, "v6 data signature incl. salt", VER_FUNCS, "doc 2 bytes"),
+        H("c02_data_v4_2_other", "c11_sig", "quick", 900, "as c02_data_v4_2 with an unknown (Other) non-critical hashed subpacket: its type and body are bound", VER_FUNCS, "doc 2 bytes"),
+        H("c15_ops_v3_sig4", "c15_ops", "quick", 600, "one-pass header vs signature: any mismatch in type/hash/pk octets invalidates", ["packet::OnePassSignature::matches"], "6 symbolic octets"),
+        H("c15_ops_v6_sig6", "c15_ops", "thorough", 600, "one-pass v6: salt mismatch invalidates", ["packet::OnePassSignature::matches"], "salt octets"),
         H("c02_truncated_3_2", "c11_sig", "quick", 900, "message truncated by one byte is rejected", VER_FUNCS, "3 -> 2 bytes"),
         H("c02_extended_2_3", "c11_sig", "thorough", 900, "message extended by one byte is rejected", VER_FUNCS, "2 -> 3 bytes"),
         H("c02_key_v4", "c11_sig", "quick", 900, "direct-key/revocation: key body, key version framing, type", VER_FUNCS, "key body 4 bytes"),
@@ -353,8 +356,18 @@ C12_H = [
     H("c12_aead_enc_%d" % n, "c12_aead", tier, 1200, "SEIPDv2 StreamEncryptor over %d octets (symbolic octets at chunk edges): stream == RFC chunk/tag schedule" % n, AEAD_F, "N=%d, chunk 64" % n)
     for n, tier in [(0, "quick"), (1, "quick"), (64, "thorough"), (65, "quick"), (70, "thorough"), (128, "thorough")]
 ] + [H("c12_chunk_size_octets", "c12_aead", "quick", 300, "chunk size octet 0..255: legal iff <= 16, size = 2^(c+6)", AEAD_F, "all octets")]
+S2K_F = ["types::StringToKey::derive_key (Simple, Salted, IteratedAndSalted arms)"]
+C12_H += [
+    H("c12_s2k_simple_2rounds", "c12_s2k", "quick", 900, "simple S2K, SHA-1, 32-octet key: round n preloads n zero octets then password", S2K_F, "password 2 symbolic octets"),
+    H("c12_s2k_salted_2rounds", "c12_s2k", "quick", 900, "salted S2K, two rounds: zero preload, salt, password", S2K_F, "salt 8 + password 2 symbolic octets"),
+    H("c12_s2k_iterated_c0", "c12_s2k", "thorough", 3000, "iterated S2K, coded count 0 (1024 octets), two rounds", S2K_F, "salt 8 + password 2 symbolic octets"),
+]
+C12_H += [
+    H("c12_ecdh_pad_%d" % l, "c12_ecdh", "quick" if l in (0, 8, 19) else "thorough", 600, "ECDH PKCS5-style padding of a %d-octet plaintext: 1..8 octets, value = count, multiple of 8" % l, ["crypto::ecdh::pad"], "L=%d" % l)
+    for l in (0, 1, 7, 8, 9, 16, 19)
+]
 PROPS["C12"] = {
-    "inject": [("src/lib.rs", "c12_aead")],
+    "inject": [("src/lib.rs", "c12_aead"), ("src/lib.rs", "c12_s2k"), ("src/crypto/ecdh.rs", "c12_ecdh")],
     "mem_gb": 14,
     "level_text": "Bounded model checking of the real SEIPDv2 stream writer against an independent RFC 9580 5.13.2 schedule (per-chunk nonce "
                   "= IV||index, AD = info, final AD = info||total octets, info = D2 02 cipher aead chunk), with the AEAD primitive as a model "
@@ -362,7 +375,7 @@ PROPS["C12"] = {
     "level_note": "Bounds: chunk size 64 (smallest legal), plaintext 0..128 octets with symbolic octets at chunk edges, AES128 x {EAX,OCB,GCM}. "
                   "The primitives, SEIPDv1/CFB, SKESK, S2K iteration streams, ECDH KDF and secret-key protection are outside (see DESIGN.md).",
     "bounds": "plaintext lengths {0,1,64,65,70,128}, chunk size 64, AES128, 3 AEAD modes",
-    "outside": "AEAD/HKDF/SHA-2 internals; chunk sizes > 64 as data; SEIPDv1; S2K; ECDH/X25519 wrap; reader side",
+    "outside": "AEAD/HKDF/SHA-2 internals; chunk sizes > 64 as data; SEIPDv1/CFB; SKESK; S2K coded counts other than 0 and Argon2 internals; ECDH/X25519 wrap; secret-key protection; reader side",
     "assumptions": AEAD_ASSUME,
     "harnesses": C12_H,
 }
